@@ -504,6 +504,31 @@ fn probe(exe: &std::path::Path, shape: &str, n: usize) -> Option<bool> {
     }
 }
 
+/// Bisect the overflow threshold of a nesting shape between a size that was answered and one that overflowed
+/// (each step is one `--probe` child). Quick: stop at a 3 % bracket; thorough: exact.
+fn bisect(exe: &std::path::Path, shape: &str, ok: usize, bad: usize, thorough: bool) -> Result<Value, String> {
+    let (mut lo, mut hi) = (ok, bad);
+    let res = |hi: usize| if thorough { 1 } else { (hi / 32).max(1) };
+    while hi - lo > res(hi) {
+        let mid = lo + (hi - lo) / 2;
+        match probe(exe, shape, mid) {
+            Some(true) => lo = mid,
+            Some(false) => hi = mid,
+            None => return Err(format!("threshold probe for {shape} at {mid} failed")),
+        }
+    }
+    let bytes = match &gen::shape_input(shape, hi).seam {
+        seams::Seam::Doc { query, .. } => query.len(),
+        seams::Seam::Req { body, .. } => body.len(),
+        seams::Seam::Qs(q) => q.len(),
+        seams::Seam::Parse(q) => q.len(),
+        seams::Seam::Mp { body, .. } => body.len(),
+        seams::Seam::Ws { msgs, .. } => msgs.iter().map(|m| m.len()).sum(),
+        _ => 0,
+    };
+    Ok(json!({"largest size answered": lo, "smallest size seen to overflow a 2 MiB stack": hi, "input bytes at that size": bytes, "bracket": if hi - lo == 1 { "exact" } else { "3 %" }}))
+}
+
 fn family_key(name: &str) -> String {
     name.strip_prefix("nest/").unwrap_or(name).to_string()
 }
@@ -560,6 +585,7 @@ pub fn run(cx: &Cx) {
     jobs.sort_by_key(|j| std::cmp::Reverse((fams[j.fi].mode == Mode::Trace, j.hi - j.lo)));
     let next = AtomicUsize::new(0);
     let stats: Mutex<BTreeMap<usize, FamStats>> = Mutex::new(BTreeMap::new());
+    let bisected: Mutex<BTreeMap<String, Value>> = Mutex::new(BTreeMap::new());
     std::thread::scope(|s| {
         for _ in 0..par {
             s.spawn(|| loop {
@@ -567,12 +593,29 @@ pub fn run(cx: &Cx) {
                 let Some(job) = jobs.get(j) else { break };
                 let fam = &fams[job.fi];
                 match run_shard(&exe, fam, tier, job.lo, job.hi) {
-                    Ok(st) => merge(stats.lock().unwrap().entry(job.fi).or_default(), st),
+                    Ok(st) => {
+                        // a nesting ladder is one job: bisect its overflow threshold right away (overlaps with the big sweeps)
+                        if fam.name.starts_with("nest/") && job.lo == 0 && job.hi == fam.len {
+                            let first_bad = st.bad.iter().filter(|(_, b)| matches!(b, Bad::Crash { overflow: true, .. })).map(|(i, _)| *i).min();
+                            if let Some(fb) = first_bad {
+                                let ok_below = (0..fb).rev().find(|i| !st.bad.iter().any(|(b, _)| b == i));
+                                let key = family_key(&fam.name);
+                                match bisect(&exe, &key, ok_below.map(|k| 1usize << k).unwrap_or(0), 1usize << fb, thorough) {
+                                    Ok(v) => {
+                                        bisected.lock().unwrap().insert(key, v);
+                                    }
+                                    Err(e) => cx.machinery_error(e),
+                                }
+                            }
+                        }
+                        merge(stats.lock().unwrap().entry(job.fi).or_default(), st)
+                    }
                     Err(e) => cx.machinery_error(e),
                 }
             });
         }
     });
+    let bisected = bisected.into_inner().unwrap();
     let stats = stats.into_inner().unwrap();
 
     // ---- judge
@@ -582,8 +625,6 @@ pub fn run(cx: &Cx) {
     let mut unjudged = serde_json::Map::new();
     let mut sites: BTreeMap<String, u64> = BTreeMap::new();
     let mut by_class_family: BTreeMap<String, BTreeMap<String, u64>> = BTreeMap::new();
-    // threshold bisection for overflowing shapes, in parallel
-    let mut to_bisect: Vec<(String, usize, usize)> = Vec::new();
     for (fi, f) in fams.iter().enumerate() {
         let Some(st) = stats.get(&fi) else { continue };
         let key = family_key(&f.name);
@@ -648,10 +689,7 @@ pub fn run(cx: &Cx) {
             }
         }
         if f.name.starts_with("nest/") {
-            if let Some(first_bad) = overflow_at.iter().min() {
-                let ok_below = (0..*first_bad).rev().find(|i| !bad_sorted.iter().any(|(b, _)| b == i));
-                to_bisect.push((key.clone(), ok_below.map(|k| 1usize << k).unwrap_or(0), 1usize << first_bad));
-            } else if bad_sorted.is_empty() {
+            if overflow_at.is_empty() && bad_sorted.is_empty() {
                 thresholds.insert(key.clone(), json!({"no failure up to size": 1u64 << (f.len - 1)}));
             }
         }
@@ -661,48 +699,7 @@ pub fn run(cx: &Cx) {
                    "slowest_input_ms": (st.maxus as f64 / 100.0).round() / 10.0, "slowest_idx": st.maxi, "judged": f.judged}),
         );
     }
-    // bisect thresholds (each step is one child)
-    let bis: Mutex<Vec<(String, Value)>> = Mutex::new(Vec::new());
-    let nextb = AtomicUsize::new(0);
-    std::thread::scope(|s| {
-        for _ in 0..par.min(to_bisect.len().max(1)) {
-            s.spawn(|| loop {
-                let j = nextb.fetch_add(1, Ordering::SeqCst);
-                let Some((shape, ok, bad)) = to_bisect.get(j) else { break };
-                let (mut lo, mut hi) = (*ok, *bad);
-                let mut trouble = false;
-                // quick: stop at a 3 % bracket (each probe near the threshold costs a deep parse); thorough: exact
-                let res = |hi: usize| if thorough { 1 } else { (hi / 32).max(1) };
-                while hi - lo > res(hi) {
-                    let mid = lo + (hi - lo) / 2;
-                    match probe(&exe, shape, mid) {
-                        Some(true) => lo = mid,
-                        Some(false) => hi = mid,
-                        None => {
-                            trouble = true;
-                            break;
-                        }
-                    }
-                }
-                if trouble {
-                    cx.machinery_error(format!("threshold probe for {shape} failed"));
-                }
-                let bytes = match &gen::shape_input(shape, hi).seam {
-                    seams::Seam::Doc { query, .. } => query.len(),
-                    seams::Seam::Req { body, .. } => body.len(),
-                    seams::Seam::Qs(q) => q.len(),
-                    seams::Seam::Parse(q) => q.len(),
-                    seams::Seam::Mp { body, .. } => body.len(),
-                    seams::Seam::Ws { msgs, .. } => msgs.iter().map(|m| m.len()).sum(),
-                    _ => 0,
-                };
-                bis.lock().unwrap().push((shape.clone(), json!({"largest size answered": lo, "smallest size seen to overflow a 2 MiB stack": hi, "input bytes at that size": bytes, "bracket": if hi - lo == 1 { "exact" } else { "3 %" }})));
-            });
-        }
-    });
-    let mut bis = bis.into_inner().unwrap();
-    bis.sort_by(|a, b| a.0.cmp(&b.0));
-    for (k, v) in bis {
+    for (k, v) in bisected {
         thresholds.insert(k, v);
     }
 
